@@ -290,10 +290,13 @@ _C08_TRUST = [
 ]
 
 PROPS["C08"] = {
-    "modules": ["TaffyVerif.Props.C08"],
+    "modules": ["TaffyVerif.Props.C08", "TaffyVerif.Props.C08Grid"],
     "theorems": [
         "C08.area_nonempty_in_range", "C08.explicit_lines_honoured", "C08.start_line_exact", "C08.end_line_exact",
         "C08.both_lines_boundaries", "C08.auto_flag_spec", "C08.auto_items_disjoint",
+        # the same for the item list of the WHOLE grid program (Model/Grid.lean), every run / every oracle
+        "C08Grid.grid_items_placed_ok", "C08Grid.grid_item_areas_nonempty_in_range", "C08Grid.grid_item_lines_honoured",
+        "C08Grid.grid_auto_items_disjoint",
     ],
     "harness": "C08", "driver": "C08", "monitor": True, "extra_ties": [("GRID", "GRID")], "extra_tie_cases": 1500,
     "rule": _C08_RULE,
@@ -311,14 +314,20 @@ PROPS["C08"] = {
                   "requested number of tracks; and an auto-placed item shares no cell with any other item. Proved by an invariant "
                   "over place_grid_items (every cell covered by a recorded item is marked in the occupancy matrix, also across "
                   "expand_to_fit_range; auto items are recorded only on areas found unoccupied). No bound on the number of "
-                  "children. The model is tied to the code by exact comparison through two channels.",
+                  "children. The model is tied to the code by exact comparison through two channels. WHOLE PROGRAM "
+                  "(Props/C08Grid.lean, about Model/Grid.lean): on every run of compute_grid_layout (every oracle) that reaches the "
+                  "state after align_tracks, the grid items handed to track sizing and positioning are the in-flow children, each "
+                  "exactly once, each carrying the area that the program's place_grid_items run (on the in-flow children with their "
+                  "indices, from the matrix of the size estimate over all box-generating children) recorded for it "
+                  "(grid_items_placed_ok); hence every item spans >= 1 track per axis inside the reported counts, its lines are "
+                  "honoured against the explicit counts, and an auto-placed item shares no cell with any other item.",
     "level_note": "Trusted: Lean kernel; hand-written model (validated by the correspondence run through the hook and through "
                   "detailed_layout_info); the hook. Axioms: propext, Classical.choice, Quot.sound.",
     "technique": "Lean 4 invariant proof over the occupancy-matrix model + differential correspondence with place_grid_items",
 }
 
 PROPS["C10"] = {
-    "modules": ["TaffyVerif.Props.C10", "TaffyVerif.Props.C10Tree"],
+    "modules": ["TaffyVerif.Props.C10", "TaffyVerif.Props.C10Tree", "TaffyVerif.Props.C10TreeThm"],
     "theorems": [
         "C10.flowLoop_is_flowTrace", "C10.block_layout_sets_are_flowTrace", "C10.trace_layout_size",
         "C10.stack_order_no_overlap", "C10.stack_order_no_overlap_layout",
@@ -334,6 +343,16 @@ PROPS["C10"] = {
         "C10Tree.model_sibling_gap_is_spec_gap", "C10Tree.model_gap_through_empty_boxes_is_spec_gap",
         "C10Tree.tree1_good_ok", "C10Tree.tree1_summed_rejected", "C10Tree.tree1_summed_clauses",
         "C10Tree.tree2_good_ok", "C10Tree.tree2_summed_rejected", "C10Tree.tree2_summed_clauses",
+        # tree-level THEOREM (Props/C10TreeThm.lean): for every tree of the family the layouts of the model (block.rs + leaf.rs
+        # models composed by the cache-free evaluator, root under any available space) satisfy Spec/MarginCollapse.lean
+        "C10Thm.block_output_meets_spec", "C10Thm.block_positions_meet_spec", "C10Thm.block_subtree_meets_spec",
+        "C10Thm.block_trees_meet_margin_spec_core", "C10Thm.block_trees_meet_margin_spec",
+        "C10Thm.oracle_hypotheses_hold_for_evaluator",
+        "C10Thm.exTree_inFamily", "C10Thm.exTree_layouts", "C10Thm.negative_padding_witness",
+        # supporting lemmas audited by name
+        "C10Thm.build_specOf", "C10Thm.walk_final", "C10Thm.walk_flow", "C10Thm.block_output_meets", "C10Thm.leaf_meets",
+        "C10Thm.out_meets", "C10Thm.out_wide", "C10Thm.run_block_PL", "C10Thm.evalOK", "C10Thm.container_flow",
+        "C10Thm.runPure_block_sets",
     ],
     "harness": "C10", "driver": "C10", "monitor": True, "extra_ties": [("EVAL", "EVAL")], "extra_tie_cases": 4000,
     "rule": "block containers with 1-5 children (empty boxes, leaves with Fixed/Wrap measure contexts, nested block / flex / grid "
@@ -368,12 +387,20 @@ PROPS["C10"] = {
         "tied to it only by the C10Tree.* theorems about the collapsed value and the one-level clauses); the driver's conversion of "
         "style tokens and f32 layouts to the specification's boxes (Drv/C10Tree.lean) is trusted; a measured content height of 0 is "
         "read as 'contains no line box'",
+        "tree-level theorem (C10Thm.*): about the Rat instance of the models of block.rs / leaf.rs / compute_root_layout composed by "
+        "the CACHE-FREE evaluator (Eval.noCache) with TaffyTree's extracted dispatch; the real nine-slot cache is covered by the "
+        "monitor on the implementation's layouts and by the EVAL tie, not by this theorem; the conversion it uses is the driver's "
+        "boxOf / build restated over the number type (Lemmas/C10TreeConv.lean, same text, toRat := some)",
     ],
     "assumptions": [
         "children are universally quantified as oracles (any answers); properties of the children's own algorithms are only "
         "used as the named hypothesis CollapseSound, which is proved for the block algorithm itself and for leaf.rs's flag expression",
         "leaf.rs is represented only by its collapse-through flag expression (leafCollapseFlag); flex and grid never set the flag",
         "calc() lengths are not modelled (TaffyTree resolves them to 0; never generated)",
+        "tree-level theorem: family = the driver's family check restricted to display block / none at every node (flex / grid "
+        "wrapper roots, placements in-flex / in-grid, are not covered) and to non-negative vertical padding, vertical border "
+        "widths, height, min-height and content height (CSS requires it; the driver does not check it; with padding-top < 0 the "
+        "statement is false of model and code alike: C10Thm.negative_padding_witness, replayed on TaffyTree)",
     ],
     "level_text": "For every block container, every list of child styles and every possible answer of the children (any oracle): "
                   "running the in-flow loop program is its pure unfolding flowTrace (flowLoop_is_flowTrace); adjacent in-flow children "
@@ -390,13 +417,27 @@ PROPS["C10"] = {
                   "(flow_first_child, flow_pair_gap) and the model of block.rs satisfies the sibling clause whenever its margin sets are "
                   "the folds of the specification's adjoining lists (model_sibling_gap_is_spec_gap, "
                   "model_gap_through_empty_boxes_is_spec_gap); the specification accepts the CSS layouts of two concrete trees and "
-                  "rejects the layouts with summed margins (tree1_*, tree2_*). Whole trees are checked against the specification by "
-                  "evaluation on generated trees, not by a theorem about the whole-tree composition of the model.",
+                  "rejects the layouts with summed margins (tree1_*, tree2_*). Whole trees, theorem (C10Thm.*): for EVERY tree of the family "
+                  "(nested display:block containers and childless boxes with fixed-size content, px margins of any sign, px padding / "
+                  "borders (non-negative vertically), auto or px width / height / min-height, display:none and absolutely positioned boxes anywhere, "
+                  "any depth, any number of children), every available space of the root (definite, max-content, min-content) and "
+                  "enough fuel, the layouts computed by compute_root_layout over the cache-free evaluator pass the driver's conversion "
+                  "and violate no clause of the specification (block_trees_meet_margin_spec; without the preorder detour and without "
+                  "exclusions A, B: block_trees_meet_margin_spec_core). Proved by induction over the tree "
+                  "(block_subtree_meets_spec: after compute_child_layout with any PerformLayout input, from any state, the subtree's "
+                  "stored layouts violate no clause) from two one-container theorems against an arbitrary stateless oracle: the "
+                  "container's output (margin sets, collapse-through flag, height 0 when collapsed through) equals the "
+                  "specification's topSet / bottomSet / collapsesThrough of the subtree when the children's outputs do "
+                  "(block_output_meets_spec), and the positions / widths it assigns to its in-flow children satisfy first-child, "
+                  "sibling-gap, through-pos, through-height and stretch (block_positions_meet_spec). The real cache is not part of the "
+                  "theorem; whole trees under the real cache are checked by evaluation of the same specification on the "
+                  "implementation's layouts (monitor).",
     "level_note": "Trusted: Lean kernel; hand-written model of block.rs validated by the correspondence run (Float32, bit-exact, query "
                   "order included); the trace hook; Lean Float32 = IEEE binary32. Axioms: propext, Classical.choice, Quot.sound.",
     "technique": "Lean 4 proofs over a free-monad model of block.rs (children as arbitrary oracles) + differential correspondence with "
                  "trace replay against TaffyTree + property monitor on the implementation's layouts + tree-level executable "
-                 "specification of CSS 2.1 margin collapsing evaluated on whole-tree layouts",
+                 "specification of CSS 2.1 margin collapsing evaluated on whole-tree layouts + structural induction over the style "
+                 "tree with the cache-free evaluator proving the specification for the whole family",
 }
 
 PROPS["C11"] = {
@@ -919,7 +960,7 @@ PROPS["C06"] = {
 }
 
 PROPS["C09"] = {
-    "modules": ["TaffyVerif.Props.C09", "TaffyVerif.Props.C03Tracks"],
+    "modules": ["TaffyVerif.Props.C09", "TaffyVerif.Props.C03Tracks", "TaffyVerif.Props.C09Grid"],
     "theorems": [
         "C09.tracks_alternate", "C09.gutter_is_gap", "C09.explicit_count_is_expansion",
         "C09.fixed_track_exact", "C09.gutter_size_is_gap", "C09.distribute_keeps_track_at_limit",
@@ -929,6 +970,12 @@ PROPS["C09"] = {
         "C03Tracks.auto_repeat_divisor_positive", "C03Tracks.initialize_total",
         "C03Tracks.alignment_divisors_positive", "C03Tracks.distribute_progress", "C03Tracks.distribute_terminates",
         "C03Tracks.maximise_params_wf",
+        # the same properties for the WHOLE grid program (Model/Grid.lean), every run / every oracle
+        "C09Grid.observation_point", "C09Grid.final_property_for_every_continuation",
+        "C09Grid.program_may_assume_final_spec", "C09Grid.track_sizing_refines", "C09Grid.track_sizing_refines_pure",
+        "C09Grid.trackSizing2_eq_pure", "C09Grid.refinement_needs_two_lists", "C09Grid.grid_fixed_tracks_exact",
+        "C09Grid.grid_gutters_are_gaps", "C09Grid.grid_explicit_count", "C09Grid.grid_fr_fills_partial",
+        "C09Grid.grid_fr_fill_full_false",
     ],
     "harness": "C09", "driver": "C09", "monitor": True, "extra_ties": [("GRID", "GRID")], "extra_tie_cases": 1500,
     "rule": "function-level requests through cfg(taffy_verif) hooks: compute_explicit_grid_size_in_axis (real Style through "
@@ -956,17 +1003,24 @@ PROPS["C09"] = {
         "f32 rounding to them); Lean Float32 arithmetic, floor/ceil and the saturating u16 cast are assumed IEEE/Rust-like",
     ],
     "assumptions": [
-        "calc() lengths, baseline shims (resolve_item_baselines), the other-axis size estimate and the re-run conditions of "
-        "mod.rs are outside the model; align_tracks is modelled (Model/Alignment.lean) and tied at function level only",
-        "items have zero margins in function-level sizing runs (expand_flexible_tracks reads the margin-free cached "
-        "max-content contribution)",
+        "calc() lengths are outside the model; set_detailed_grid_info is not modelled: the whole-program theorems "
+        "(Props/C09Grid.lean) observe the track vectors right after align_tracks (step 8), i.e. what the item-positioning loop reads",
+        "items have zero margins in function-level sizing runs of the pure model (expand_flexible_tracks reads the margin-free "
+        "cached max-content contribution); the whole-program theorems need no such assumption: the refinement "
+        "(C09Grid.track_sizing_refines) is against the two-list form trackSizing2 of the pure algorithm, which is the pure "
+        "algorithm itself when margins are zero or the expansion space is not max-content (track_sizing_refines_pure, "
+        "trackSizing2_eq_pure); with the contributions read off the caches in the natural way it is NOT the one-list pure "
+        "algorithm (C09Grid.refinement_needs_two_lists, a model witness)",
         "`x as u16` truncation of list lengths is exact (fewer than 65536 template entries / repeated tracks)",
         "the fill clause is evaluated on the implementation with tolerance 2^-21·(n+8)·extent (n tracks; f32 additions "
         "accumulate rounding), everything else exactly",
     ],
     "undischarged": [
-        "fixed_track_exact is end-to-end for the modelled track_sizing_algorithm (every oracle) for length-valued min = max; "
-        "percentage tracks/gaps (re-resolved in mod.rs step 7) are outside it",
+        "fixed_track_exact / C09Grid.grid_fixed_tracks_exact are for length-valued min = max; the resolved size of percentage "
+        "tracks/gaps (re-resolved in mod.rs step 7) is not covered (grid_gutters_are_gaps gives their sizing functions only)",
+        "C09Grid.grid_fr_fills_partial keeps the side conditions of fr_fills_partial (non-negative base sizes and factors of "
+        "the tracks entering expand_flexible_tracks, positive free space, surviving factor sum >= 1), stated about the pure "
+        "algorithm's intermediate state for the run's contribution data",
         "distribute_terminates is proved for closures with non-negative proportions that do not read "
         "item_incurred_increase; the flex-factor variant therefore assumes non-negative fr values; the item batcher's fuel "
         "(#items + 1, one batch consumes at least one item) is not a theorem",
@@ -983,9 +1037,23 @@ PROPS["C09"] = {
                   "that size after the whole track_sizing_algorithm for every oracle (fixed_track_exact, end to end since fix f6411f1), and when the tracks still flexible in the last iteration have factor sum ≥ 1 the expanded "
                   "tracks fill the definite space. The full fill clause is refuted on a model witness that is replayed on the "
                   "implementation (known finding); the two defects found here (THRESHOLD leak, zero-size auto-repeat) are fixed and "
-                  "their witnesses are fixed cases. The model is tied to the code by bit-exact comparison at function level and on whole layouts.",
+                  "their witnesses are fixed cases. The model is tied to the code by bit-exact comparison at function level and on whole layouts. "
+                  "WHOLE PROGRAM (Props/C09Grid.lean, about Model/Grid.lean = compute_grid_layout as one interaction program, every style, "
+                  "child styles, input and every oracle answering the child queries): compute_grid_layout is, by rfl, the program up to "
+                  "the state after align_tracks followed by step 9 (observation_point); on every run that reaches that state every "
+                  "track or gutter with min = max = a length has exactly that base size (grid_fixed_tracks_exact, through both runs per "
+                  "axis, set_gutter_adjustment, the step-7 re-resolution and align_tracks), both vectors alternate gutter/track with "
+                  "zero collapsed outer gutters and inner gutters carrying the gap (exactly the gap for a length gap; "
+                  "grid_gutters_are_gaps), the explicit count of each axis is what compute_explicit_grid_size_in_axis returned and that "
+                  "many explicit tracks were emitted (grid_explicit_count), and with a definite own size the tracks and gutters fill "
+                  "the content box under the hypothesis of fr_fills_partial (grid_fr_fills_partial; the unconditional clause is refuted "
+                  "on a whole-program run, grid_fr_fill_full_false). All lifted through one refinement lemma: every run of the track "
+                  "sizing program returns the tracks the pure algorithm computes from the contribution data the run leaves in the items' "
+                  "caches (track_sizing_refines).",
     "level_note": "partial: the fill clause only under the stated hypothesis (fr underfill is a known finding); intrinsic sizing is "
-                  "modelled and tied but has no theorems besides fixed_track_exact and termination; align_tracks is modelled and tied but carries no C09 theorem. Trusted: Lean kernel; hand-written models "
+                  "modelled and tied but has no theorems besides fixed_track_exact, the refinement program ⊑ pure and termination; "
+                  "align_tracks is shown to change offsets only; sizes of percentage gaps/tracks are not covered; the whole-program "
+                  "theorems are about the hand-written program model Model/Grid.lean (tied by the GRID correspondence run). Trusted: Lean kernel; hand-written models "
                   "(validated by the correspondence run, Float32 bit-exact); Lean Float32 = IEEE binary32. Axioms: propext, "
                   "Classical.choice, Quot.sound.",
     "technique": "Lean 4 theorems (induction over templates/track lists, monotone-iterate termination argument, kernel-evaluated "
@@ -994,7 +1062,7 @@ PROPS["C09"] = {
 
 # ---------------------------------------------------------------------------------------------------------
 # Tier T, typed translation (extract/src/{expr,stmt,emit,lean}.rs + one module per source file): small pure functions of
-# cache.rs, available_space.rs, layout.rs, geometry.rs, style_helpers.rs, util/{sys,math,resolve}.rs are translated into
+# cache.rs, available_space.rs, layout.rs, geometry.rs, style_helpers.rs, util/{sys,math,resolve}.rs (first batch) are translated into
 # Generated/*.lean on every run; Props/Tie*.lean prove generated = hand-written model definition, for every [Num α].
 # These equalities are obligations of every check whose theorems are about those model definitions.
 TIE_CACHE = ["TieCache." + t for t in (
@@ -1021,11 +1089,47 @@ TIE_GRID = ["TieGrid." + t for t in (
     "implicit_start_line_eq implicit_end_line_eq oz_line_to_next_track_eq track_to_prev_oz_line_eq "
     "into_origin_zero_placement_eq into_origin_zero_eq indefinite_span_eq is_definite_oz_eq is_definite_raw_eq "
     "resolve_definite_grid_lines_eq resolve_indefinite_grid_tracks_eq").split()]
-TIE_TRUSTED = ("tier T: Generated/{Cache,AvailableSpace,LayoutTypes,Geometry,Sys,MaybeMath,Resolve,GridCoords}.lean are translated from the Rust "
+# second batch of the typed translation (extract/src/{alignment,content,axes,style,compute}.rs, Ty::Var for generic impls,
+# `&mut` first parameters, destructuring assignment, `usize as f32`, trait constants, length constructors):
+# compute/common/{alignment,content_size}.rs, the FlexDirection / AbstractAxis accessors of geometry.rs + impl FlexDirection,
+# LayoutInput::HIDDEN, style/mod.rs (Style::DEFAULT, impl Overflow, the getters of the style traits for Style, the length
+# constructors), compute/mod.rs (round_layout_inner's node block, compute_hidden_layout's constants)
+TIE_ALIGNMENT = ["TieAlignment." + t for t in (
+    "apply_alignment_fallback_eq compute_alignment_offset_eq fallback_spaceBetween_two_items "
+    "usizeSubTrunc_exact").split()]
+TIE_CONTENT = ["TieContent." + t for t in (
+    "compute_content_size_contribution_eq").split()]
+TIE_AXES = ["TieAxes." + t for t in (
+    "is_row_eq is_column_eq is_reverse_eq main_axis_sum_eq cross_axis_sum_eq main_start_eq main_end_eq "
+    "cross_start_eq cross_end_eq size_main_eq size_cross_eq set_main_eq set_cross_eq with_main_eq with_cross_eq "
+    "from_cross_eq point_transpose_eq point_main_eq point_cross_eq").split()]
+TIE_GRIDAXES = ["TieGridAxes." + t for t in (
+    "axis_other_eq size_get_eq size_set_eq point_get_eq").split()]
+TIE_INPUT = ["TieInput." + t for t in (
+    "layout_input_hidden_eq size_max_content_eq size_min_content_eq line_false_eq line_true_eq").split()]
+TIE_STYLE = ["TieStyle." + t for t in (
+    "default_eq display_default_eq is_scroll_container_eq maybe_into_automatic_min_size_eq lp_length_eq "
+    "lp_percent_eq lp_zero_eq lpa_length_eq lpa_percent_eq lpa_auto_eq lpa_AUTO_eq lpa_zero_eq dim_length_eq "
+    "dim_percent_eq dim_auto_eq dim_AUTO_eq dim_zero_eq rect_lpa_auto_eq rect_lpa_zero_eq rect_lp_zero_eq "
+    "size_dim_auto_eq size_lp_zero_eq box_generation_mode_none_eq box_generation_mode_default_eq is_block_eq "
+    "is_compressible_replaced_eq box_sizing_eq overflow_eq scrollbar_width_eq position_eq inset_eq size_eq "
+    "min_size_eq max_size_eq aspect_ratio_eq margin_eq padding_eq border_eq text_align_eq is_table_eq "
+    "flex_direction_eq flex_wrap_eq flex_gap_eq flex_align_content_eq flex_align_items_eq "
+    "flex_justify_content_eq flex_basis_eq flex_grow_eq flex_shrink_eq flex_align_self_eq grid_gap_eq "
+    "grid_align_content_eq grid_justify_content_eq grid_align_items_eq grid_justify_items_eq grid_align_self_eq "
+    "grid_justify_self_eq").split()]
+TIE_COMPUTE = ["TieCompute." + t for t in (
+    "round_content_size_eq round_layout_inner_node_eq roundInner_unfold round_layout_start_eq "
+    "hidden_node_layout_eq hidden_child_input_eq hidden_output_eq").split()]
+TIE_TRUSTED = ("tier T: Generated/{Cache,AvailableSpace,LayoutTypes,Geometry,Sys,MaybeMath,Resolve,GridCoords,Alignment,ContentSize,Axes,GridAxes,Style,Compute}.lean are translated from the Rust "
                "source on every run (verif/extract, typed syn-based translator, my code); Props/Tie*.lean prove each generated "
                "definition equal to the hand-written model definition for every [Num α]; style lengths are translated against the "
                "abstract LP/LPA inductives (tag ↦ constructor, justified by C18) with the calc arm dropped; grid integer code is translated "
-               "into the Outcome monad with every arithmetic operation and cast checked (same convention as Model/GridPlacement.lean)")
+               "into the Outcome monad with every arithmetic operation and cast checked (same convention as Model/GridPlacement.lean); "
+               "length constructors are translated to the abstract constructors after CompactLength::{length,percent,auto,ZERO,AUTO} have been "
+               "compared with the source; the one usize subtraction of compute_alignment_offset is translated as truncated subtraction "
+               "(TieAlignment.fallback_spaceBetween_two_items: unreachable underflow); round_layout / compute_hidden_layout: the tree walk is "
+               "compared token by token, the per-node block / the three constants are translated")
 
 
 def _add_tie(pid, module, theorems):
@@ -1044,6 +1148,27 @@ for _pid in ("C10", "C11", "C19", "C04", "C12"):
     _add_tie(_pid, "TaffyVerif.Props.TieResolve", TIE_RESOLVE)
 for _pid in ("C08", "C03"):
     _add_tie(_pid, "TaffyVerif.Props.TieGrid", TIE_GRID)
+# alignment (justify-content / align-content of the flex program, align_tracks of the grid program, and the checks stated on them)
+for _pid in ("C07", "C09", "C11", "C04", "C12"):
+    _add_tie(_pid, "TaffyVerif.Props.TieAlignment", TIE_ALIGNMENT)
+# content-size contribution (block, flex and grid programs)
+for _pid in ("C10", "C06"):
+    _add_tie(_pid, "TaffyVerif.Props.TieContent", TIE_CONTENT)
+# main/cross accessors of the flex program (and of the absolute-position code shared with it)
+for _pid in ("C07", "C04", "C12", "C05", "C06"):
+    _add_tie(_pid, "TaffyVerif.Props.TieAxes", TIE_AXES)
+# AbstractAxis accessors of the grid program
+for _pid in ("C09", "C03"):
+    _add_tie(_pid, "TaffyVerif.Props.TieGridAxes", TIE_GRIDAXES)
+# LayoutInput::HIDDEN and the RunMode / SizingMode / RequestedAxis enums
+for _pid in ("C17", "C05"):
+    _add_tie(_pid, "TaffyVerif.Props.TieInput", TIE_INPUT)
+# Style::DEFAULT, the style getters, impl Overflow, the length constructors
+for _pid in ("C19", "C10", "C11", "C12", "C04", "C07", "C05", "C17"):
+    _add_tie(_pid, "TaffyVerif.Props.TieStyle", TIE_STYLE)
+# the per-node rounding block (C13) and compute_hidden_layout's constants (C05, C17)
+for _pid in ("C13", "C05", "C17"):
+    _add_tie(_pid, "TaffyVerif.Props.TieCompute", TIE_COMPUTE)
 
 # C03 (totality): the grid program cannot panic (no overflow in the checked integer code, no out-of-range track index, no
 # fuel exhaustion) whenever the decidable precondition gridSafeB holds — proved on Model/Grid.lean (computeGridLayoutE makes
@@ -1052,6 +1177,60 @@ PROPS["C03"]["modules"] = list(PROPS["C03"]["modules"]) + [m for m in EVALGRID_M
 PROPS["C03"]["theorems"] = list(PROPS["C03"]["theorems"]) + [
     "EvalGrid.grid_noPanic_of_gridSafeB", "EvalGrid.noPanic_computeGridLayoutE", "EvalGrid.gridSafeB_sound",
     "EvalGrid.GSafe_trackSizingAlgorithmM"]
+
+# C07 / C11 lifted from the component functions to the WHOLE interaction programs (Model/Flex.lean, Model/Block.lean,
+# Model/Grid.lean): the theorems speak about the layouts the programs hand to set_unrounded_layout, in every PerformLayout
+# run (every family of children answering the queries; Lift.lays / Lift.res = projections of C04.runO)
+PROPS["C07"]["modules"] = list(PROPS["C07"]["modules"]) + ["TaffyVerif.Props.C07Flex"]
+PROPS["C07"]["theorems"] = list(PROPS["C07"]["theorems"]) + [
+    "C07Flex.flex_program_sets_once", "C07Flex.flex_program_lines_partition", "C07Flex.flex_program_lines_nowrap",
+    "C07Flex.flex_program_line_order_no_overlap", "C07Flex.flex_program_line_order_no_overlap_pairs",
+    "C07Flex.flex_program_gap_of_length", "C07Flex.mainOK_of_style",
+    "C07Flex.flex_program_flexibility_exhausted", "C07Flex.flexBaseItems_fields",
+    "C07Flex.Ex.kids_mainOK", "C07Flex.Ex.kids_childWF", "C07Flex.Ex.orcA_nonneg", "C07Flex.Ex.orcB_honours",
+    "C07Flex.Neg.flex_program_passes_non_ItemWF", "C07Flex.Neg.flex_program_exhausted_false_without_maxPb",
+    "C07Flex.Neg.flex_program_target_below_padding_border",
+    # supporting lemmas worth auditing by name
+    "Lift.flexRun_lays", "Lift.flexRun_size", "Lift.flexRun_line_order", "Lift.flexRun_exhausted",
+    "Lift.lineLays_mbox", "Lift.mshape_aligned", "Lift.Post_flexPrefix_all", "Lift.itemWF_fbFinish", "Lift.rfl_outer",
+    "Lift.honoursKnownMain_of_honoursKnown",
+]
+PROPS["C07"]["assumptions"] = list(PROPS["C07"]["assumptions"]) + [
+    "program-level order/no-overlap (C07Flex): the children return main sizes >= 0 (the size SET is the size the child "
+    "returns from perform_child_layout, not target_size); main gap >= 0; main-axis margins >= 0, default main-axis insets",
+    "program-level flexibility-exhausted (C07Flex): flex-wrap nowrap, definite inner main size, each non-zero flex factor "
+    ">= 1, padding+border >= 0, max main size (if any) >= padding+border (without it the lift is FALSE: "
+    "C07Flex.Neg.flex_program_exhausted_false_without_maxPb, replayed on the real TaffyTree), and the children return the "
+    "main size they are told (OracleHonoursKnownMain; real leaves/containers do when the target is >= their padding+border: "
+    "compute_leaf_layout returns known_dimensions.maybe_max(padding_border); it fails below: "
+    "C07Flex.Neg.flex_program_target_below_padding_border)",
+]
+PROPS["C11"]["modules"] = list(PROPS["C11"]["modules"]) + ["TaffyVerif.Props.C11Progs"]
+PROPS["C11"]["theorems"] = list(PROPS["C11"]["theorems"]) + [
+    "C11Progs.block_program_abs_layout", "C11Progs.block_failures_static_x", "C11Progs.block_failures_static_y",
+    "C11Progs.block_program_abs_equations", "C11Progs.block_obsX_static", "C11Progs.block_obsY_static",
+    "C11Progs.block_program_start_inset_eq_x", "C11Progs.block_program_start_inset_eq_y",
+    "C11Progs.block_program_end_inset_eq_x", "C11Progs.block_program_end_inset_eq_y",
+    "C11Progs.block_program_stretch_size_eq_x", "C11Progs.block_program_stretch_size_eq_y",
+    "C11Progs.flex_program_abs_layout", "C11Progs.flex_program_abs_equations",
+    "C11Progs.flex_program_start_inset_eq_x", "C11Progs.flex_program_start_inset_eq_y",
+    "C11Progs.flex_program_end_inset_eq_x", "C11Progs.flex_program_end_inset_eq_y",
+    "C11Progs.flex_program_stretch_size_eq_x", "C11Progs.flex_program_stretch_size_eq_y",
+    "C11Progs.grid_program_abs_layout", "C11Progs.grid_program_abs_equations",
+    "C11Progs.grid_program_start_inset_eq_x", "C11Progs.grid_program_end_inset_eq_x",
+    "C11Progs.Ex.grid_run_ok",
+    # supporting lemmas worth auditing by name
+    "Lift.absItem_lays", "Lift.blockRun_abs", "Lift.blockRun_lays", "Lift.flexRun_abs", "Lift.abLayout_eq_absFlex",
+    "Lift.alignAndPositionItem_run", "Lift.hiddenAbsLoop_abs_auto", "Lift.closed_KAbs", "Lift.KAbs_computeGridLayoutE",
+    "Lift.gridRun_abs", "Lift.SetsQ_run",
+]
+PROPS["C11"]["assumptions"] = list(PROPS["C11"]["assumptions"]) + [
+    "program-level theorems (C11Progs): PerformLayout runs; the container's reported layout C has the run's output size and "
+    "the container's border/scrollbar (BlockReported / ParentReported); no hypothesis on the children. Block: the static "
+    "position is the one the in-flow pass computed (it enters the location only on an axis without insets). Grid: "
+    "non-panicking runs (computeGridLayoutE returns ok) and children with grid-row/grid-column auto / auto; the known finding "
+    "(end inset, padding box of negative extent) stays as the side condition inside Spec.endOk true",
+]
 
 HOOK_COMMITS = [
     "5207efe",
